@@ -28,11 +28,27 @@ def load_known():
         return json.load(f)
 
 
+_NATIVE_TMP = []
+
+
+def _native_tmpdir():
+    if not _NATIVE_TMP:
+        import atexit
+        import shutil
+        import tempfile
+        d = tempfile.mkdtemp(prefix="pyvc_native_")
+        os.chmod(d, 0o755)  # (one scenario drops its privileges and must still reach what it created)
+        atexit.register(shutil.rmtree, d, True)
+        _NATIVE_TMP.append(d)
+    return _NATIVE_TMP[0]
+
+
 def run_native(script, args, timeout=600, python=VENV_PY):
     """Run a replay / bounded-search driver on the real code. Returns (rc, parsed-json-or-None, raw)."""
     env = dict(os.environ)
     env["PYTHONPATH"] = REPO + os.pathsep + VERIF
     env.pop("PYTHONHASHSEED", None)
+    env["TMPDIR"] = _native_tmpdir()  # whatever the harness and its children leave in their temporary directory goes away with this run
     try:
         out = subprocess.run([python, os.path.join(VERIF, script)] + [str(a) for a in args], capture_output=True,
                              text=True, timeout=timeout, env=env, cwd=VERIF)
